@@ -1,0 +1,47 @@
+//go:build verif
+
+package expr
+
+// Contracts of the hand-written part of the expression parser (parse.go), checked by /verif/govc.
+// This file contains comments only and is compiled only under the build tag "verif".
+
+// ---- C17: Parse is total -----------------------------------------------------------------------------------
+// The deferred handler ends every panic and turns it into (nil, error); it leaves the results alone when
+// there is no panic.
+//@ func expr.Parse$1
+//@   recovers
+//@   requires e != nil
+//@   modifies panicking, ret, err
+//@   nopanic[C17]
+//@   ensures[C17:panic-ends] panicking == nil
+//@   ensures[C17:panic-becomes-an-error-and-no-map] old(panicking) != nil ==> ret == nil && err != nil
+//@   ensures[C17:results-kept-without-panic] old(panicking) == nil ==> ret == old(ret) && err == old(err)
+
+// The ANTLR runtime, the generated lexer/parser and the tree walk are not under contract: every call of
+// them is treated as changing all state and as possibly panicking.  Whatever they do, Parse returns
+// normally with a map and no error or an error and no map.
+//@ func expr.Parse
+//@   modifies everything
+//@   nopanic[C17]
+//@   ensures[C17:an-error-means-no-map] err != nil ==> ret == nil
+//@   ensures[C17:no-error-means-a-map] err == nil && str_trim(data) != "" ==> ret != nil
+//@   ensures[C17:blank-input] str_trim(data) == "" ==> ret == nil && err == nil
+
+// ---- C17: the tree listener writes only below the enclosing path -----------------------------------------------
+//@ spec fun under(key string, k string) bool = key == "" || has_prefix(k, key + ".")
+//@ spec fun fieldKeyOf(key string, ctx IInnerExprContext) string = key == "" ? IFieldAccessContext.GetText(IInnerExprContext.FieldAccess(ctx)) : key + "." + IFieldAccessContext.GetText(IInnerExprContext.FieldAccess(ctx))
+//@ spec fun strTok(ctx IInnerExprContext) antlr.TerminalNode = IValueContext.STRING(IInnerExprContext.Value(ctx))
+
+//@ func (*expr.ParseTreeListener).parseInnerExpr
+//@   may_panic
+//@   requires l != nil && l.Result != nil
+//@   modifies map(l.Result)
+//@   ensures[C17:writes-stay-below-the-enclosing-path] forall k string :: !under(key, k) ==> has(l.Result, k) == old(has(l.Result, k)) && l.Result[k] == old(l.Result[k])
+//@   ensures[C17:string-value-unquoted] strTok(ctx) != nil ==> has(l.Result, fieldKeyOf(key, ctx)) && l.Result[fieldKeyOf(key, ctx)] == go_unquote(antlr.TerminalNode.GetText(strTok(ctx)))
+
+//@ func (*expr.ParseTreeListener).parseExpr
+//@   may_panic
+//@   requires l != nil && l.Result != nil
+//@   modifies map(l.Result)
+//@   ensures[C17:writes-stay-below-the-enclosing-path] forall k string :: !under(key, k) ==> has(l.Result, k) == old(has(l.Result, k)) && l.Result[k] == old(l.Result[k])
+//@   loop 1 invariant[C17:prefix-discipline] forall k string :: !under(key, k) ==> has(l.Result, k) == old(has(l.Result, k)) && l.Result[k] == old(l.Result[k])
